@@ -263,8 +263,8 @@ def first_diverging_gap(p: Prediction, exp: str, got: str, with_var_out=True) ->
     return last
 
 
-def tagname(t) -> str:
-    return "start-or-end" if t is None else f"{t[0]}[{t[1]}]"
+def tagname(t, none="start") -> str:
+    return none if t is None else f"{t[0]}[{t[1]}]"
 
 
 def divergence_key(p: Prediction, exp: str, got: str, tb, ls, with_var_out=True):
@@ -275,8 +275,8 @@ def divergence_key(p: Prediction, exp: str, got: str, tb, ls, with_var_out=True)
     g = p.gaps[gi]
     direction = "under-strip" if len(got) > len(exp) else (
         "over-strip" if len(got) < len(exp) else "differs")
-    key = (f"{direction}:tb={int(bool(tb))},ls={int(bool(ls))}:{tagname(g['A'])}>"
-           f"{tagname(g['B'])}:model({g['rl'] or '-'},{g['rr'] or '-'})")
+    key = (f"{direction}:tb={int(bool(tb))},ls={int(bool(ls))}:{tagname(g['A'], 'start')}>"
+           f"{tagname(g['B'], 'end')}:model({g['rl'] or '-'},{g['rr'] or '-'})")
     return key, g
 
 
